@@ -13,7 +13,8 @@ included), every coefficient row, every selection / restart rule, every feedback
         `normaliseRow_zero`
 * T19.2 `objective_coeff_nonneg`, `gopCoeffs_rest`, `gopBranch_in_span`, `gopObjOnly_in_span`,
         `gop_askDqd_returns_stored`, `gop_parents_preserved`, `gop_ask_from_returned`, `gop_ask_rows_spec`,
-        `gop_ask_unbounded`, `gop_ask_in_bounds`
+        `gop_ask_unbounded`, `gop_ask_in_bounds`, `gop_refuses_ask_nonempty`, `gop_startup_ask`,
+        `gop_startup_askDqd`, `gop_no_initial_on_nonempty`, `gop_empty_batch`
 * T19.3 `gae_refuses_ask`, `gae_refuses_tell`, `gae_allows_ask`, `gae_allows_tell`, `gae_tellDqd_sets`,
         `gae_before_gradients`, `gae_jac_persistent`, `gop_refuses_ask`, `gop_allows_ask`, `gop_ask_pure`,
         `gop_tell_noop`, `gop_before_gradients`, `gop_jac_persistent`
@@ -253,9 +254,57 @@ theorem gae_jac_persistent (c : Gae.Cfg) : ∀ (ops : List Gae.Op) (s : Gae.St),
   | [], _, h => h
   | op :: ops, s, h => gae_jac_persistent c ops _ (gae_step_jac c s op h)
 
-theorem gop_refuses_ask (c : Gop.Cfg) (s : Gop.St) (z : List (Nat → Rat)) (h : s.jac = none) :
-    Gop.step c s (.ask z) = (s, .error .runtime) := by
-  simp [Gop.step, h]
+/-- before gradients `ask` raises RuntimeError and nothing changes — **unless** this is the documented
+start-up call (the archive is empty *at this call* and initial_solutions are configured). In particular it is
+refused on every non-empty archive (`gop_refuses_ask_nonempty`). -/
+theorem gop_refuses_ask (c : Gop.Cfg) (s : Gop.St) (z : List (Nat → Rat)) (h : s.jac = none)
+    (hs : Gop.startup c s = false) : Gop.step c s (.ask z) = (s, .error .runtime) := by
+  simp [Gop.step, h, hs]
+
+theorem gop_refuses_ask_nonempty (c : Gop.Cfg) (s : Gop.St) (z : List (Nat → Rat)) (h : s.jac = none)
+    (he : s.empty = false) : Gop.step c s (.ask z) = (s, .error .runtime) :=
+  gop_refuses_ask c s z h (by simp [Gop.startup, he])
+
+/-- the start-up call: the archive is empty now and initial_solutions are configured ⇒ `ask` returns them,
+clipped, with or without gradients, and changes nothing -/
+theorem gop_startup_ask (c : Gop.Cfg) (s : Gop.St) (z : List (Nat → Rat)) (I : List Vec)
+    (he : s.empty = true) (hi : c.init = some I) :
+    Gop.step c s (.ask z) = (s, .rows (I.map (Gop.clipV c))) := by
+  simp [Gop.step, Gop.startup, he, hi]
+
+/-- … and `ask_dqd` then returns no solutions and stores nothing -/
+theorem gop_startup_askDqd (c : Gop.Cfg) (s : Gop.St) (raw : List Vec) (hs : Gop.startup c s = true) :
+    Gop.step c s (.askDqd raw) = (s, .rows []) := by
+  simp [Gop.step, hs]
+
+/-- **on a non-empty archive `ask` never hands out the initial solutions**, whatever happened before (every call
+sequence leads to some state `s`): it is refused (no gradients) or it emits exactly the rows branched from the
+stored parents along the stored gradients — none at all when the last `tell_dqd` supplied an empty batch -/
+theorem gop_no_initial_on_nonempty (c : Gop.Cfg) (s : Gop.St) (z : List (Nat → Rat)) (he : s.empty = false) :
+    (s.jac = none ∧ (Gop.step c s (.ask z)).2 = .error .runtime) ∨
+    (∃ Js, s.jac = some Js ∧
+      ((c.mg = true ∧ z.length ≠ s.parents.length ∧ (Gop.step c s (.ask z)).2 = .error .value) ∨
+       (c.mg = true ∧ (Gop.step c s (.ask z)).2 = .rows (Gop.askRows c s.parents Js z)) ∨
+       (c.mg = false ∧ (Gop.step c s (.ask z)).2 = .rows (Gop.askRowsObj c s.parents Js)))) := by
+  have hs : Gop.startup c s = false := by simp [Gop.startup, he]
+  cases hj : s.jac with
+  | none => left; simp [Gop.step, hs, hj]
+  | some Js =>
+    right
+    refine ⟨Js, rfl, ?_⟩
+    cases hmg : c.mg with
+    | false => right; right; simp [Gop.step, hs, hj, hmg]
+    | true =>
+      by_cases hl : z.length ≠ s.parents.length
+      · left; simp [Gop.step, hs, hj, hmg, hl]
+      · right; left; simp [Gop.step, hs, hj, hmg, hl]
+
+/-- an empty batch of gradients yields an empty batch of solutions -/
+theorem gop_empty_batch (c : Gop.Cfg) (ps : List Vec) (zs : List (Nat → Rat)) :
+    Gop.askRows c ps [] zs = [] ∧ Gop.askRowsObj c ps [] = [] := by
+  constructor
+  · cases ps <;> simp [Gop.askRows]
+  · cases ps <;> simp [Gop.askRowsObj]
 
 /-- once gradients are stored `ask` is not refused for want of gradients, and it does **not** change the
 state — so it can be called again with the same right (the unchanged tree overwrites its Jacobian in the
@@ -266,8 +315,10 @@ theorem gop_ask_pure (c : Gop.Cfg) (s : Gop.St) (z : List (Nat → Rat)) :
   split
   · rfl
   · split
-    · split <;> rfl
     · rfl
+    · split
+      · split <;> rfl
+      · rfl
 
 theorem gop_allows_ask (c : Gop.Cfg) (s : Gop.St) (z : List (Nat → Rat)) (h : s.jac ≠ none) :
     (Gop.step c s (.ask z)).2 ≠ .error .runtime := by
@@ -276,8 +327,10 @@ theorem gop_allows_ask (c : Gop.Cfg) (s : Gop.St) (z : List (Nat → Rat)) (h : 
   | some Js =>
     simp only [Gop.step, hj]
     split
-    · split <;> simp
     · simp
+    · split
+      · split <;> simp
+      · simp
 
 /-- `GradientOperatorEmitter` inherits the no-op `tell`: it never refuses and never changes anything -/
 theorem gop_tell_noop (c : Gop.Cfg) (s : Gop.St) : Gop.step c s .tell = (s, .done) := rfl
@@ -292,17 +345,18 @@ theorem gop_before_gradients (c : Gop.Cfg) : ∀ (ops : List Gop.Op) (s : Gop.St
   | op :: ops, s, h, hops => by
     have hstep : (Gop.step c s op).1.jac = none := by
       cases op with
-      | askDqd ps => exact h
+      | askDqd ps => simp only [Gop.step]; split <;> exact h
       | tellDqd r n => have := hops (.tellDqd r n) (by simp); simp [isGopTellDqd] at this
-      | ask z => rw [gop_refuses_ask c s z h]; exact h
+      | ask z => rw [gop_ask_pure]; exact h
       | tell => exact h
+      | observe b => exact h
     simp only [Gop.run]
     exact gop_before_gradients c ops _ hstep (fun o ho => hops o (by simp [ho]))
 
 theorem gop_step_jac (c : Gop.Cfg) (s : Gop.St) (op : Gop.Op) (h : s.jac ≠ none) :
     (Gop.step c s op).1.jac ≠ none := by
   cases op with
-  | askDqd ps => exact h
+  | askDqd ps => simp only [Gop.step]; split <;> exact h
   | tellDqd jacs norms =>
     simp only [Gop.step]
     split
@@ -314,6 +368,7 @@ theorem gop_step_jac (c : Gop.Cfg) (s : Gop.St) (op : Gop.Op) (h : s.jac ≠ non
       · simp
   | ask z => rw [gop_ask_pure]; exact h
   | tell => exact h
+  | observe b => exact h
 
 theorem gop_jac_persistent (c : Gop.Cfg) : ∀ (ops : List Gop.Op) (s : Gop.St), s.jac ≠ none →
     (Gop.run c s ops).jac ≠ none
@@ -324,9 +379,10 @@ theorem gop_jac_persistent (c : Gop.Cfg) : ∀ (ops : List Gop.Op) (s : Gop.St),
 
 /-- `ask_dqd` clips the perturbed parents, and what it stores is exactly what it returns (so the caller's
 gradients are evaluated at the points `ask` will branch from) -/
-theorem gop_askDqd_returns_stored (c : Gop.Cfg) (s : Gop.St) (raw : List Vec) :
+theorem gop_askDqd_returns_stored (c : Gop.Cfg) (s : Gop.St) (raw : List Vec) (hs : Gop.startup c s = false) :
     Gop.step c s (.askDqd raw) = ({ s with parents := raw.map (Gop.clipV c) }, .rows (raw.map (Gop.clipV c))) ∧
-    (Gop.step c s (.askDqd raw)).2 = .rows (Gop.step c s (.askDqd raw)).1.parents := ⟨rfl, rfl⟩
+    (Gop.step c s (.askDqd raw)).2 = .rows (Gop.step c s (.askDqd raw)).1.parents := by
+  simp [Gop.step, hs]
 
 def isGopAskDqd : Gop.Op → Bool
   | .askDqd _ => true
@@ -346,6 +402,7 @@ theorem gop_parents_preserved (c : Gop.Cfg) (s : Gop.St) (op : Gop.Op) (h : isGo
       · rfl
   | ask z => rw [gop_ask_pure]
   | tell => rfl
+  | observe b => rfl
 
 /-- positional description of the rows of `ask` (measure gradients on) -/
 theorem gop_ask_rows_spec (c : Gop.Cfg) : ∀ (ps : List Vec) (Js : List Mat) (zs : List (Nat → Rat)),
@@ -390,8 +447,10 @@ theorem gop_ask_rows_obj_spec (c : Gop.Cfg) : ∀ (ps : List Vec) (Js : List Mat
 `tell_dqd` that stored `Js`), `ask` emits, row by row, `clip(psᵢ + combination of the gradients)` — it
 branches from the rows that were *returned*, not from any other point -/
 theorem gop_ask_from_returned (c : Gop.Cfg) (s : Gop.St) (raw : List Vec) (ops : List Gop.Op)
+    (hs : Gop.startup c s = false)
     (hops : ∀ op ∈ ops, isGopAskDqd op = false) (Js : List Mat) (zs : List (Nat → Rat))
-    (hJ : (Gop.run c (Gop.step c s (.askDqd raw)).1 ops).jac = some Js) :
+    (hJ : (Gop.run c (Gop.step c s (.askDqd raw)).1 ops).jac = some Js)
+    (hs' : Gop.startup c (Gop.run c (Gop.step c s (.askDqd raw)).1 ops) = false) :
     let ps := raw.map (Gop.clipV c)
     let s' := Gop.run c (Gop.step c s (.askDqd raw)).1 ops
     (Gop.step c s (.askDqd raw)).2 = .rows ps ∧ s'.parents = ps ∧
@@ -406,16 +465,19 @@ theorem gop_ask_from_returned (c : Gop.Cfg) (s : Gop.St) (raw : List Vec) (ops :
       intro t h
       simp only [Gop.run]
       rw [ih _ (fun o ho => h o (by simp [ho])), gop_parents_preserved c t op (h op (by simp))]
+  have hstored := gop_askDqd_returns_stored c s raw hs
   have hp := hpar ops (Gop.step c s (.askDqd raw)).1 hops
-  have hp' : (Gop.run c (Gop.step c s (.askDqd raw)).1 ops).parents = raw.map (Gop.clipV c) := hp
-  refine ⟨rfl, hp', ?_, ?_⟩
+  have hp' : (Gop.run c (Gop.step c s (.askDqd raw)).1 ops).parents = raw.map (Gop.clipV c) := by
+    rw [hp, hstored.1]
+  refine ⟨by rw [hstored.1], hp', ?_, ?_⟩
   · intro hmg hlen
-    generalize Gop.run c (Gop.step c s (.askDqd raw)).1 ops = t at hJ hp' ⊢
-    simp only [Gop.step, hJ, hmg, if_true]
+    generalize Gop.run c (Gop.step c s (.askDqd raw)).1 ops = t at hJ hp' hs' ⊢
+    simp only [Gop.step, hJ, hmg, if_true, hs']
+    simp only [Bool.false_eq_true, if_false]
     rw [hp', if_neg (not_not.mpr hlen)]
   · intro hmg
-    generalize Gop.run c (Gop.step c s (.askDqd raw)).1 ops = t at hJ hp' ⊢
-    simp [Gop.step, hJ, hmg, hp']
+    generalize Gop.run c (Gop.step c s (.askDqd raw)).1 ops = t at hJ hp' hs' ⊢
+    simp [Gop.step, hJ, hmg, hp', hs']
 
 /-- without bounds the final clip is the identity: the row is parent + combination itself -/
 theorem gop_ask_unbounded (c : Gop.Cfg) (hlo : ∀ k, c.lo k = none) (hhi : ∀ k, c.hi k = none) (v : Vec) :
@@ -655,7 +717,7 @@ theorem nonvacuous :
 /-- GradientOperatorEmitter: refusal, then |c₀| on the objective gradient (coefficient row (−1, 1) gives
 +1·∇f + 1·∇m), and the objective-only form -/
 theorem nonvacuous_gop :
-    let c : Gop.Cfg := ⟨2, 2, true, 1 / 2, false, 0, fun _ => none, fun _ => none⟩
+    let c : Gop.Cfg := ⟨2, 2, true, 1 / 2, false, 0, fun _ => none, fun _ => none, none⟩
     let s1 := (Gop.step c Gop.init (.askDqd [ofList [0, 0]])).1
     let r0 := Gop.step c s1 (.ask [ofList [-1, 1]])
     let s2 := (Gop.step c s1 (.tellDqd [[[3, 4], [1, 0]]] [fun _ => 0])).1
@@ -669,7 +731,7 @@ theorem nonvacuous_gop :
 gradients off and σ_g = ½, ∇f = (−1, 4) the emitted row is clip((1, 0) + ½·(−1, 4)) = (½, 1) — **not**
 clip((3, 0) + ½·(−1, 4)) = (1, 1), which branching from the unclipped point would give -/
 theorem nonvacuous_gop_bounded :
-    let c : Gop.Cfg := ⟨2, 2, false, 1 / 2, false, 0, fun _ => some (-1), fun _ => some 1⟩
+    let c : Gop.Cfg := ⟨2, 2, false, 1 / 2, false, 0, fun _ => some (-1), fun _ => some 1, none⟩
     let r1 := Gop.step c Gop.init (.askDqd [ofList [3, 0]])
     let s2 := (Gop.step c r1.1 (.tellDqd [[[-1, 4], [0, 0]]] [fun _ => 0])).1
     let r2 := Gop.step c s2 (.ask [])
@@ -686,6 +748,23 @@ theorem nonvacuous_adam_l2 :
     toList 2 (effGrad (ofList [0, 0]) (ofList [3, -2]) 10) = [-30, 20] ∧
     toList 2 (adamFirstStep (1 / 20) (1 / 1000) (ofList [3, -2]) (effGrad (ofList [0, 0]) (ofList [3, -2]) 10))
       = [3 - 1500 / 30001, -2 + 1000 / 20001] := by
+  decide +kernel
+
+/-- initial_solutions [(3, 0)] with bounds [-1, 1]²: on the empty archive `ask_dqd` returns nothing and `ask`
+returns the clipped initial solution (1, 0) without gradients; once the archive is non-empty `ask` is refused
+(no gradients were ever supplied), and after an empty batch of gradients it returns an empty batch — never the
+initial solutions again -/
+theorem nonvacuous_gop_initial :
+    let c : Gop.Cfg := ⟨2, 2, false, 1 / 2, false, 0, fun _ => some (-1), fun _ => some 1, some [ofList [3, 0]]⟩
+    let show' : Gop.Out → List (List Rat) := fun o => match o with
+      | .rows rs => rs.map (toList 2) | .done => [[7]] | .error .runtime => [[-1]] | .error _ => [[-2]]
+    let r1 := Gop.step c Gop.init (.askDqd [ofList [9, 9]])
+    let r2 := Gop.step c r1.1 (.ask [])
+    let s3 := (Gop.step c r2.1 (.observe false)).1
+    let r3 := Gop.step c s3 (.ask [])
+    let s4 := (Gop.step c s3 (.tellDqd [] [])).1
+    let r4 := Gop.step c s4 (.ask [])
+    show' r1.2 = [] ∧ show' r2.2 = [[1, 0]] ∧ show' r3.2 = [[-1]] ∧ s4.jac.isSome = true ∧ show' r4.2 = [] := by
   decide +kernel
 
 end Pyribs.C19
